@@ -53,7 +53,10 @@ def accepts(kind: str, x: int, y: int, cols: int, rows: int) -> bool:
 class _SpyCommon(urwid.Widget):
     """shared behaviour; concrete classes set _sizing and implement dims(size)"""
 
-    no_cache = ["render", "rows"]
+    # render IS cached like for any real widget (so that containers around spies are cacheable too and "render again at
+    # the same size" is served from the canvas cache); every cache-missing render is logged, and the harness clears the
+    # cache before the observing render
+    no_cache = ["rows"]
     ignore_focus = False
 
     def __init__(self, sid, glyph, log, *, selectable=True, accept="all", cursor=(0, 0), mret=True, **geom):
@@ -197,8 +200,6 @@ SPY_CLASSES = {
 
 # ----------------------------------------------------------------------------- real leaves, logged
 class _RealLog:
-    no_cache = ["render"]
-
     def _spy_setup(self, sid, glyph, log):
         self.sid = sid
         self.glyph = glyph
